@@ -430,6 +430,18 @@ theorem Fmt.count_fileAt (ks : List String) (hk : errorsKey ∉ ks) (m : String)
       have hr : errorsKey ∉ r := fun h => hk (by simp [h])
       simp [Fmt.fileAt, hk1, Fmt.count, countKids_updKid k _ (ih hr)]; omega
 
+/-- whatever the path — reserved segments included — the message is filed: the report grows by exactly one -/
+theorem Fmt.count_fileAt_all (ks : List String) (m : String) (t : Fmt) :
+    (t.fileAt ks m).count = t.count + 1 := by
+  induction ks generalizing t with
+  | nil => simp [Fmt.fileAt, Fmt.count_addErr]
+  | cons k r ih =>
+    cases t with
+    | node e kids =>
+      by_cases hk : k = errorsKey
+      · simp [Fmt.fileAt, hk, ih]
+      · simp [Fmt.fileAt, hk, Fmt.count, countKids_updKid k _ ih]; omega
+
 theorem Fmt.at_empty (p : List String) : Fmt.empty.at p = [] := by
   induction p with
   | nil => simp [Fmt.at, Fmt.empty]
@@ -482,6 +494,32 @@ theorem Fmt.at_fileAt (q : List String) (hq : errorsKey ∉ q) (m : String) (p :
         · subst hk; simp [ih hr]
         · simp [hk]
 
+/-- for ANY path: the message is filed at the node the path denotes once its reserved segments are
+    dropped, and every other node is left as it was -/
+theorem Fmt.at_fileAt_strip (q : List String) (m : String) (p : List String) (hp : errorsKey ∉ p) (t : Fmt) :
+    (t.fileAt q m).at p = if p = stripReserved q then t.at p ++ [m] else t.at p := by
+  induction q generalizing p t with
+  | nil =>
+    cases t with
+    | node e kids =>
+      cases p with
+      | nil => simp [Fmt.fileAt, Fmt.addErr, Fmt.at, stripReserved]
+      | cons s r => simp [Fmt.fileAt, Fmt.addErr, Fmt.at, stripReserved]
+  | cons k q' ih =>
+    cases t with
+    | node e kids =>
+      by_cases hk : k = errorsKey
+      · simp only [Fmt.fileAt, hk, if_true, stripReserved]
+        exact ih p hp _
+      · cases p with
+        | nil => simp [Fmt.fileAt, hk, Fmt.at, stripReserved]
+        | cons k' p' =>
+          have hp' : errorsKey ∉ p' := fun h => hp (by simp [h])
+          simp only [Fmt.fileAt, hk, if_false, Fmt.at, kidAt_updKid, stripReserved]
+          by_cases hkk : k' = k
+          · subst hkk; simp [ih p' hp']
+          · simp [hkk]
+
 /-! ### the reserved key -/
 
 /-- no effective path of the error (prefix ++ path of a leaf) has a segment that renders to
@@ -516,26 +554,43 @@ theorem fileAll_at (es : List Entry) (h : ∀ e ∈ es, errorsKey ∉ e.1.map Se
       have hb : (e.1.map Seg.render == p) = false := by simp [hp']
       simp [List.filter, hp, hb]
 
+theorem fileAll_count_all (es : List Entry) (t : Fmt) : (fileAll es t).count = t.count + es.length := by
+  induction es generalizing t with
+  | nil => simp [fileAll]
+  | cons e r ih =>
+    have := ih (Fmt.fileAt (e.1.map Seg.render) e.2 t)
+    simp [fileAll] at this ⊢
+    rw [this, Fmt.count_fileAt_all]; omega
+
+theorem fileAll_at_strip (es : List Entry) (p : List String) (hp : errorsKey ∉ p) (t : Fmt) :
+    (fileAll es t).at p
+      = t.at p ++ (es.filter (fun e => stripReserved (e.1.map Seg.render) == p)).map (·.2) := by
+  induction es generalizing t with
+  | nil => simp [fileAll]
+  | cons e r ih =>
+    have := ih (Fmt.fileAt (e.1.map Seg.render) e.2 t)
+    simp only [fileAll, List.foldl] at this ⊢
+    rw [this, Fmt.at_fileAt_strip _ _ _ hp]
+    by_cases hq : p = stripReserved (e.1.map Seg.render)
+    · subst hq; simp [List.filter]
+    · have hq' : ¬ stripReserved (e.1.map Seg.render) = p := fun x => hq x.symm
+      have hb : (stripReserved (e.1.map Seg.render) == p) = false := by simp [hq']
+      simp [List.filter, hq, hb]
+
 theorem reservedFree_iff (is : List Issue) :
     reservedFree is = true ↔ ∀ e ∈ leavesIssues [] is, errorsKey ∉ e.1.map Seg.render := by
   simp [reservedFree, List.all_eq_true]
 
-/-- the full statement for FormatError: one message per leaf, whatever the paths -/
-def c19_format_count_full : Prop :=
-  ∀ is : List Issue, (formatError is).count = leafCountIssues is
+/-- **FormatError loses nothing — FULL statement**: for every error, whatever its paths (reserved
+    segments included), the report carries exactly one message per issue, or per nested leaf issue
+    for wrapper issues. -/
+theorem c19_format_count (is : List Issue) : (formatError is).count = leafCountIssues is := by
+  rw [formatError_eq, fileAll_count_all, Fmt.count_empty, leavesIssues_length]; omega
 
-/-- **FormatError loses nothing** outside the reserved-key region: the report carries exactly one
-    message per issue, or per nested leaf issue for wrapper issues. -/
-theorem c19_format_count_partial (is : List Issue) (h : reservedFree is = true) :
-    (formatError is).count = leafCountIssues is := by
-  rw [formatError_eq, fileAll_count _ ((reservedFree_iff is).mp h), Fmt.count_empty,
-    leavesIssues_length]; omega
-
-/-- witness: inside the region the full statement is false — the only issue of the error is lost -/
-theorem c19_format_count_full_false : ¬ c19_format_count_full := by
-  intro h
-  have := h [.mk .custom [.key "a", .key "_errors"] "m1" [] []]
-  revert this; decide
+/-- legacy witness: before cef00ff a reserved last segment dropped the only message of the error -/
+theorem legacy_fileAt_drops_reserved :
+    (Fmt.fileAtLegacy ["a", "_errors"] "m1" Fmt.empty).count = 0 ∧
+    (Fmt.fileAt ["a", "_errors"] "m1" Fmt.empty).at ["a"] = ["m1"] := by decide
 
 /-- **FormatError files every message at the node its rendered path denotes**, and nothing else
     (outside the reserved-key region): the node reached by the chain of keys `p` holds exactly the
@@ -544,6 +599,14 @@ theorem c19_format_place_partial (is : List Issue) (h : reservedFree is = true) 
     (formatError is).at p
       = ((leavesIssues [] is).filter (fun e => e.1.map Seg.render == p)).map (·.2) := by
   rw [formatError_eq, fileAll_at _ ((reservedFree_iff is).mp h), Fmt.at_empty]; simp
+
+/-- **FormatError files every message at the node its rendered path denotes once reserved segments
+    are dropped** — for every error: the node reached by a chain of keys `p` holds exactly the
+    messages of the leaves whose rendered prefix ++ path, reserved segments skipped, is `p`. -/
+theorem c19_format_place_strip (is : List Issue) (p : List String) (hp : errorsKey ∉ p) :
+    (formatError is).at p
+      = ((leavesIssues [] is).filter (fun e => stripReserved (e.1.map Seg.render) == p)).map (·.2) := by
+  rw [formatError_eq, fileAll_at_strip _ _ hp, Fmt.at_empty]; simp
 
 /-- witness: a reserved segment in the middle is skipped, so the message is filed one level up -/
 theorem c19_format_place_full_false :
@@ -827,24 +890,16 @@ theorem leafCountIssues_pos (i : Issue) (r : List Issue) : 0 < leafCountIssues (
   rw [← leavesIssues_length (i :: r) []]
   exact List.length_pos_iff.mpr h
 
-/-- **c19_nonempty**: for a non-empty error Flatten, Treeify and Prettify carry at least one
-    message, and so does FormatError outside the reserved-key region. -/
+/-- **c19_nonempty — FULL statement**: a non-empty error never formats to an empty report: Flatten,
+    Treeify, FormatError and Prettify each carry at least one message. -/
 theorem c19_nonempty (is : List Issue) (h : is ≠ []) :
     0 < (flatten is).count ∧ 0 < (treeify is).count ∧ (prettySegs is).length = is.length ∧
-    (reservedFree is = true → 0 < (formatError is).count) := by
+    0 < (formatError is).count := by
   cases is with
   | nil => exact absurd rfl h
   | cons i r =>
-    refine ⟨by simp [c19_flatten_count], by simp [c19_tree_count], by simp [prettySegs], fun hf => ?_⟩
-    rw [c19_format_count_partial _ hf]; exact leafCountIssues_pos i r
-
-/-- the full statement for FormatError, and the witness that it fails in the reserved-key region -/
-def c19_nonempty_format_full : Prop := ∀ is : List Issue, is ≠ [] → 0 < (formatError is).count
-
-theorem c19_nonempty_format_full_false : ¬ c19_nonempty_format_full := by
-  intro h
-  have := h [.mk .invalidType [.key "_errors"] "m1" [] []] (by simp)
-  revert this; decide
+    refine ⟨by simp [c19_flatten_count], by simp [c19_tree_count], by simp [prettySegs], ?_⟩
+    rw [c19_format_count]; exact leafCountIssues_pos i r
 
 /-- before the patch the error of a real failed `Union([String(),Int()]).Parse(true)` formatted to `{"_errors":[]}` -/
 theorem legacy_nonempty_false :
